@@ -40,7 +40,11 @@ type Options struct {
 	Pool     bool // sync.Pool seam: p.Get() / p.Put(x) go through simrt.PoolGet / simrt.PoolPut (which pooled object is handed out is a tape decision)
 	// LoopYieldAll: every `for` / `range` body in the file starts with a yield (needs Yield)
 	LoopYieldAll bool
-	MinPool      int
+	// GoBodyYield: inside every function literal started as a goroutine (`go func(){…}()`, errgroup `g.Go(func() error {…})`)
+	// a yield stands between any two top-level statements (needs Yield): plain shared-variable accesses of concurrent
+	// bodies - a store in one statement, the load in the next - can then be separated by the scheduler
+	GoBodyYield bool
+	MinPool     int
 	// MinSites: the rewriter must have produced at least this many seams of each kind, else error
 	// ("an expected site is missing because the source was refactored").
 	MinLock, MinSelect, MinGo, MinMap int
@@ -320,6 +324,7 @@ func (r *rewriter) scanOwn(n ast.Node, nd *need) {
 				if len(e.Args) == 1 {
 					if fl, isLit := e.Args[0].(*ast.FuncLit); isLit {
 						r.block(fl.Body)
+						r.goBodyYields(fl)
 					}
 					if !r.opt.Yield {
 						return false // map-order-only instrumentation: goroutines stay unmanaged
@@ -353,6 +358,24 @@ func (r *rewriter) scanOwn(n ast.Node, nd *need) {
 func (r *rewriter) yieldStmt(pos token.Pos, why string) ast.Stmt {
 	r.counts.Yield++
 	return &ast.ExprStmt{X: simCall("Yield", strLit(r.site(pos)+":"+why))}
+}
+
+func (r *rewriter) goBodyYields(fl *ast.FuncLit) {
+	if !r.opt.GoBodyYield || !r.opt.Yield || fl.Body == nil {
+		return
+	}
+	var out []ast.Stmt
+	for i, st := range fl.Body.List {
+		if i > 0 {
+			pos := st.Pos()
+			if !pos.IsValid() {
+				pos = fl.Pos()
+			}
+			out = append(out, r.yieldStmt(pos, "stmt"))
+		}
+		out = append(out, st)
+	}
+	fl.Body.List = out
 }
 
 func (r *rewriter) wokeStmt(pos token.Pos, why string) ast.Stmt {
@@ -410,6 +433,7 @@ func (r *rewriter) stmts(list []ast.Stmt) []ast.Stmt {
 				}
 				if fl, ok := s.Call.Fun.(*ast.FuncLit); ok {
 					r.block(fl.Body)
+					r.goBodyYields(fl)
 					out = append(out, r.yieldStmt(pos, "go"), &ast.ExprStmt{X: simCall("Go", strLit(r.site(pos)), fl)})
 				} else {
 					wrapped := &ast.FuncLit{Type: &ast.FuncType{Params: &ast.FieldList{}}, Body: &ast.BlockStmt{List: []ast.Stmt{&ast.ExprStmt{X: s.Call}}}}
